@@ -113,7 +113,7 @@ def _raw_walk(raw):
     return out
 
 
-def audit(raw, where=""):
+def audit(raw, where="", sig="C06"):
     """Re-derive the layout from the raw (unwrapped) tree and check the TOC <-> metadata bijection.
 
     Returns dict(objects={(owner, ep_name, uuid): bytes}, links={uuid: (ep_name, target)}, schemas={ep_name}, packages={..})."""
@@ -232,7 +232,7 @@ def audit(raw, where=""):
             problems.append(f"package record {pk} provides no schema in use")
     if problems:
         kinds = sorted({_problem_kind(x) for x in problems})
-        raise Violation("C06:toc-out-of-sync:" + "+".join(kinds)[:120], f"{where}: " + "; ".join(problems[:5]), "TOC and metadata in one-to-one sync")
+        raise Violation(f"{sig}:toc-out-of-sync:" + "+".join(kinds)[:120], f"{where}: " + "; ".join(problems[:5]), "TOC and metadata in one-to-one sync")
     return dict(objects=objects, links=links, schemas=srecs, packages=pkgs, nodes=nodes)
 
 
